@@ -33,7 +33,8 @@ inductive NewDone (c c' : Core) : LogEntry → Prop
       (c.pos = .waitEnabled ∨ ∃ dl b, c.pos = .failFor dl b) → c.queue = .req r :: q →
       NewDone c c' (doneEntry c r .noConn)
   | dequeue (m : Nat) (r : Req) (q : List Cmd) (res : Res) : c.alive = true → c.pos = .idle m →
-      c.queue = .req r :: q → ((∃ e, res = .badReq e) ∨ res = .io .pipe) →
+      c.queue = .req r :: q →
+      ((∃ e, res = .badReq e) ∨ res = .io .pipe ∨ (∃ e, res = frameErrRes e)) →
       (∀ k, res.sessionEnd = some k → c'.pos = .noPhase ∧ LogEntry.fin k c.now ∈ c'.log) →
       NewDone c c' (doneEntry c r res)
   | finish (m : Nat) (r : Req) (tx dl : Nat) (res : Res) : c.alive = true →
@@ -41,6 +42,16 @@ inductive NewDone (c c' : Core) : LogEntry → Prop
       res ≠ .shutdown →
       (∀ k, res.sessionEnd = some k → c'.pos = .noPhase ∧ LogEntry.fin k c.now ∈ c'.log) →
       NewDone c c' (doneEntry c r res)
+
+/-- a request that fails when it is taken from the queue fails with a validation error, the failed
+    write or a framing error: never with `noconn`, `shutdown` or `timeout` -/
+theorem dequeueRes_ne {res : Res}
+    (h : (∃ e, res = .badReq e) ∨ res = .io .pipe ∨ (∃ e, res = frameErrRes e)) :
+    res ≠ .noConn ∧ res ≠ .shutdown ∧ res ≠ .timeout := by
+  rcases h with ⟨e, rfl⟩ | rfl | ⟨e, rfl⟩
+  · simp
+  · simp
+  · exact frameErrRes_ne e
 
 theorem mem_afterCore_log (c : Core) (m : Nat) (res : Res) (e : LogEntry) (he : e.isDone = true)
     (h : e ∈ (afterCore c m res).log) : e ∈ c.log := by
